@@ -127,6 +127,11 @@ def enabled(tree, meta):
     for d in dirs:
         cr.append(c(d, ["md5"]))
         cr.append(c("", ["xxh64"], sf=[d]))
+        inside = [f for f in files if f.startswith(d + "/")]
+        if inside:
+            cr.append(c("", ["xxh64", "md5"], sf=[d, inside[0]]))   # a folder and a file inside it: the file is named twice
+    if files:
+        cr.append(c("", ["md5"], sf=[files[0], files[0]]))
     if meta.get("creator") and g == 0:
         for extra in CREATOR[1:]:
             cr.append(c("", ["xxh64"], extra=extra))
